@@ -615,7 +615,10 @@ def step (T : Tables) (w : World) (op : Op) (obs : List String) : Out :=
       let d := match o.info with
         | some (some d) => d
         | _ => []
-      let d' := if d.any (·.1 == k) then d.map fun p => if p.1 == k then (k, v) else p else d ++ [(k, v)]
+      -- key 0 is not a key: `setMeta o 0 0` = a mere read of `mol.meta` (the lazy property creates the empty dict),
+      -- `setMeta o 0 1` = `mol.meta.clear()`
+      let d' := if k == 0 then (if v == 0 then d else [])
+        else if d.any (·.1 == k) then d.map fun p => if p.1 == k then (k, v) else p else d ++ [(k, v)]
       { w := setObj w i { o with info := some (some d') } }
   | .read _ k => { w := setObj w i (readKey T o k obs false) }
 
